@@ -452,10 +452,127 @@ def run_redefined(w) -> None:
         loaded.unload()
 
 
+PLACEHOLDERS_SOURCE = """import icontract
+
+
+def c_plain(x):
+    return HUB.cond('c_plain', {'x': x})
+
+
+def e_pre(*, x, _ARGS, _KWARGS):
+    return HUB.error('c_plain', {'x': x, '_ARGS': _ARGS, '_KWARGS': _KWARGS})
+
+
+def p_plain(result):
+    return HUB.cond('p_plain', {'result': result})
+
+
+def e_post(*, _ARGS, _KWARGS, result):
+    return HUB.error('p_plain', {'_ARGS': _ARGS, '_KWARGS': _KWARGS, 'result': result})
+
+
+@icontract.require(c_plain, error=e_pre)
+def only_the_pre_factory_asks(x, *rest, **kw):
+    return HUB.body('f', {'x': x})
+
+
+@icontract.ensure(p_plain, error=e_post)
+def only_the_post_factory_asks(x, *rest, **kw):
+    return HUB.body('f', {'x': x})
+
+
+@icontract.require(c_plain, error=e_pre)
+async def only_the_pre_factory_asks_async(x, *rest, **kw):
+    return HUB.body('f', {'x': x})
+
+
+def c_inherited(_ARGS, _KWARGS):
+    return HUB.cond('c_inherited', {'_ARGS': _ARGS, '_KWARGS': _KWARGS})
+
+
+def p_inherited(_ARGS, _KWARGS, result):
+    return HUB.cond('p_inherited', {'_ARGS': _ARGS, '_KWARGS': _KWARGS})
+
+
+class Base(icontract.DBC):
+    @icontract.require(c_inherited, error=HUB.errinst('c_inherited'))
+    @icontract.ensure(p_inherited, error=HUB.errinst('p_inherited'))
+    def m(self, x, *rest, **kw):
+        return HUB.body('m', {'x': x})
+
+
+class Override(Base):
+    def m(self, x, *rest, **kw):
+        return HUB.body('m', {'x': x})
+
+
+class OverrideOfOverride(Override):
+    @icontract.ensure(p_plain, error=HUB.errinst('p_plain'))
+    def m(self, x, *rest, **kw):
+        return HUB.body('m', {'x': x})
+"""
+
+
+def run_placeholders(w) -> None:
+    """_ARGS / _KWARGS asked for by an error factory only (no condition or capture of the function names them), and by a condition
+    which an override without contracts of its own inherits: they receive the positional tuple and the keyword mapping of the call."""
+    loaded = prog.load_source(PLACEHOLDERS_SOURCE, w.scratch())
+    hub, mod = loaded.hub, loaded.module
+    try:
+        targets = [("only_the_pre_factory_asks", mod.only_the_pre_factory_asks, None, {"c_plain": False}),
+                   ("only_the_post_factory_asks", mod.only_the_post_factory_asks, None, {"p_plain": False}),
+                   ("only_the_pre_factory_asks_async", mod.only_the_pre_factory_asks_async, None, {"c_plain": False})]
+        for cname in ("Base", "Override", "OverrideOfOverride"):
+            inst = getattr(mod, cname)()
+            for falsy in ({}, {"c_inherited": False}, {"p_inherited": False}):
+                targets.append(("{}.m".format(cname), inst.m, inst, falsy))
+        for tag, fn, inst, truth in targets:
+            for args, kwargs in (((Tok("a"),), {}), ((Tok("a"), Tok("b"), Tok("c")), {"k": Tok("k")}), ((), {"x": Tok("x"), "z": Tok("z")})):
+                hub.reset()
+                hub.truth = dict(truth)
+                exc = None
+                try:
+                    res = fn(*args, **kwargs)
+                    if inspect.iscoroutine(res):
+                        res = probe.drive(res)
+                except BaseException as err:  # pylint: disable=broad-except
+                    exc = err
+                case = {"placeholders": tag, "npos": len(args), "kws": sorted(kwargs), "truth": {k: v for k, v in truth.items()}}
+                w.case(("placeholders", tag, len(args), tuple(sorted(kwargs)), tuple(sorted(truth))))
+                w.count("placeholder_calls")
+                w.count("probe_events", len(hub.events))
+                if isinstance(exc, TypeError) or (exc is not None and not truth):
+                    w.violation("C05/contract-saw-other-value-than-body", "{}(*{} positionals, **{}) with {}: {}: {}".format(
+                        tag, len(args), sorted(kwargs), truth or "all contracts holding", type(exc).__name__, str(exc)[:300]), case)
+                    continue
+                args_seen = args if inst is None else (inst,) + args
+                seen = 0
+                for ev in hub.events:
+                    for name, val in ev.got.items():
+                        if name == "_ARGS":
+                            seen += 1
+                            w.count("identity_comparisons")
+                            if not (isinstance(val, tuple) and len(val) == len(args_seen) and all(x is y for x, y in zip(val, args_seen))):
+                                w.violation("C05/contract-saw-other-value-than-body", "{}: {} {} received _ARGS={!r}, the call passed {!r}".format(
+                                    tag, ev.kind, ev.id, val, args_seen), case)
+                        if name == "_KWARGS":
+                            seen += 1
+                            w.count("identity_comparisons")
+                            if not (isinstance(val, dict) and set(val) == set(kwargs) and all(val[k] is kwargs[k] for k in val)):
+                                w.violation("C05/contract-saw-other-value-than-body", "{}: {} {} received _KWARGS={!r}, the call passed {!r}".format(
+                                    tag, ev.kind, ev.id, val, kwargs), case)
+                if seen == 0:
+                    w.violation("C05/probe-count", "{}: no probe received _ARGS / _KWARGS; events {}".format(tag, [repr(e) for e in hub.events]), case)
+    finally:
+        loaded.unload()
+
+
 def run(w) -> None:
     rng = w.rng
     if w.shard == 0:
         run_redefined(w)
+    if w.shard == 1 % w.nshards:
+        run_placeholders(w)
     thorough = w.tier == "thorough"
     max_named = 5 if thorough else 4
     sigs = list(signatures(max_named))
@@ -494,6 +611,9 @@ def run(w) -> None:
 def replay(case, w) -> None:
     if "redefined" in case:
         run_redefined(w)
+        return
+    if "placeholders" in case:
+        run_placeholders(w)
         return
     params = case["params"]
     kind = case.get("kind", "function")
